@@ -113,7 +113,6 @@ inductive Problem where
   | reversed        -- lo > hi
   | tooMany         -- more than 16384 hosts in one range
   | tooManyRanges   -- more than 10240 ranges in one bracket group
-  | overflow64      -- a bound ≥ 2^64 in a range that is otherwise within the limits
   deriving Repr, DecidableEq
 
 def Problem.name : Problem → String
@@ -122,7 +121,6 @@ def Problem.name : Problem → String
   | .reversed => "reversed"
   | .tooMany => "toomany"
   | .tooManyRanges => "toomanyranges"
-  | .overflow64 => "overflow64"
 
 /-- brackets match: depth never negative, zero at the end -/
 def balanced : Nat → Str → Bool
@@ -170,13 +168,25 @@ def itemProblems (it : Str) : List Problem :=
   match readItem it with
   | .error p => [p]
   | .ok (lo, hi, _) =>
-    if hi - lo + 1 > RANGE_LIMIT then [.tooMany]
-    else if hi ≥ 2 ^ 64 then [.overflow64] else []
+    if hi - lo + 1 > RANGE_LIMIT then [.tooMany] else []
+
+/-- the item is within the limits but one of its bounds does not fit 64 bits: the property text
+    is silent about it (admissible: refuse it, or expand it exactly) -/
+def itemNote64 (it : Str) : Bool :=
+  match readItem it with
+  | .error _ => false
+  | .ok (lo, hi, _) => hi - lo + 1 ≤ RANGE_LIMIT && hi ≥ 2 ^ 64
 
 def itemNames (it : Str) : List Str :=
   match readItem it with
   | .error _ => []
   | .ok (lo, hi, w) => (List.range' lo (hi + 1 - lo)).map (pad w)
+
+/-- does the first group of the word hold a bound ≥ 2^64 (in a range within the limits)? -/
+def wordNote64 (w : Str) : Bool :=
+  match w.dropWhile (· ≠ '[') with
+  | [] => false
+  | _ :: t => (splitComma [] (matchClose 0 [] t).1).any itemNote64
 
 /-- a word of a BALANCED text: problems of its first group, and its first-level expansion -/
 def readWord (w : Str) : List Problem × List Str :=
@@ -195,6 +205,7 @@ def readWord (w : Str) : List Problem × List Str :=
         else (ps, [])
 
 structure Verdict where
+  note64 : Bool                  -- some bound ≥ 2^64 (at either level) in a range within the limits
   problems : List Problem        -- of the text as a host expression (first-level)
   hosts₁ : List Str              -- expected `hostlist_create` denotation (when no problem)
   problems₂ : List Problem       -- problems met when the first-level names are expanded again
@@ -202,16 +213,17 @@ structure Verdict where
   deriving Repr
 
 def classify (s : Str) : Verdict :=
-  if !balanced 0 s then ⟨[.unbalanced], [], [], []⟩
+  if !balanced 0 s then ⟨false, [.unbalanced], [], [], []⟩
   else
-    let ws := (splitWords 0 [] s).map readWord
+    let words := splitWords 0 [] s
+    let ws := words.map readWord
     let ps := (ws.flatMap (·.1)).eraseDups
-    if !ps.isEmpty then ⟨ps, [], [], []⟩
+    if !ps.isEmpty then ⟨false, ps, [], [], []⟩
     else
       let h1 := ws.flatMap (·.2)
       let l2 := h1.map readWord
       let ps2 := (l2.flatMap (·.1)).eraseDups
-      ⟨[], h1, ps2, if ps2.isEmpty then l2.flatMap (·.2) else []⟩
+      ⟨words.any wordNote64 || h1.any wordNote64, [], h1, ps2, if ps2.isEmpty then l2.flatMap (·.2) else []⟩
 
 /-- string-level expander of well-formed text (the oracle of C01) -/
 def expandStr₁ (s : Str) : List Str := (classify s).hosts₁
@@ -227,7 +239,7 @@ def namesField (xs : List Str) (limit : Nat) : String :=
   let more := if xs.length > limit then "+" else ""
   s!"{shown.length}{more}:" ++ ",".intercalate (shown.map hexName)
 
-/-- `fail:<p1>+<p2>..`  or  `ok | <n1> | <names1> | <n2> | <names2 or = or fail:..>` -/
+/-- `fail:<p1>+<p2>..`  or  `ok|ok64 | <n1> | <names1> | <n2> | <names2 or = or fail:..>` -/
 def answer (s : Str) (limit : Nat) : String :=
   let v := classify s
   if !v.problems.isEmpty then "fail:" ++ "+".intercalate (v.problems.map Problem.name)
@@ -237,6 +249,7 @@ def answer (s : Str) (limit : Nat) : String :=
              else
                let b := namesField v.hosts₂ limit
                if a = b then "=" else b
-    s!"ok | {v.hosts₁.length} | {a} | {v.hosts₂.length} | {b}"
+    let head := if v.note64 then "ok64" else "ok"
+    s!"{head} | {v.hosts₁.length} | {a} | {v.hosts₂.length} | {b}"
 
 end PdshVerif.Hostlist.Spec
